@@ -314,6 +314,36 @@ pub fn judge(calls: &[Call], docs: &[Vec<DocSpec>], short_seed: Option<u64>, acc
     }
 }
 
+/// The history once more, to a writer that fails ONE write call with a transient kind of error after k
+/// bytes and accepts everything again afterwards. Whatever xt makes of that error, the bytes it writes
+/// must stay a prefix of what the same history writes to a faultless writer (nothing, or the one
+/// document): a later document or input may not be appended to a partly written one.
+pub fn judge_transient(calls: &[Call], seed: u64, acc: &mut Acc) {
+    let (_, clean) = run_history(calls, Fmt::Toml, MonWriter::new(), false);
+    if clean.bytes.is_empty() {
+        return;
+    }
+    let mut rng = Rng::new(seed);
+    let k = rng.below(clean.bytes.len() + 1);
+    let kind = *rng.pick(&[std::io::ErrorKind::WouldBlock, std::io::ErrorKind::Interrupted, std::io::ErrorKind::TimedOut, std::io::ErrorKind::Other, std::io::ErrorKind::WriteZero]);
+    acc.evals += 1;
+    acc.count("histories_with_a_transient_write_error");
+    acc.count(&format!("transient_write_error_{kind:?}"));
+    let (verdicts, wlog) = run_history(calls, Fmt::Toml, MonWriter::new().with_fault(k, crate::mon::FaultStyle::TransientOnce(kind)), false);
+    let case = || json!({"transient_write_error": format!("{kind:?}"), "k": k, "seed": seed, "calls": calls.iter().map(|c| json!({"input_hex": hex(&c.input), "input_preview": preview(&c.input, 160), "from": fmts::from_name(c.from), "mode": c.mode.describe()})).collect::<Vec<_>>()});
+    if let Some(p) = verdicts.iter().position(|v| v.is_panic()) {
+        acc.violation(Violation { sig: "panic".into(), case: case(), observed: format!("call {p}: {}", verdicts[p].show()), expected: "no panic".into() });
+        return;
+    }
+    if !clean.bytes.starts_with(&wlog.bytes) {
+        acc.violation(Violation { sig: format!("after a transient write error ({kind:?}) the output is not a prefix of the one document"), case: case(), observed: format!("one write call failed after {k} bytes; calls returned [{}]; output [{}]", verdicts.iter().map(|v| v.class()).collect::<Vec<_>>().join(", "), preview(&wlog.bytes, 300)), expected: format!("a prefix of [{}]", preview(&clean.bytes, 200)) });
+    } else if wlog.bytes.len() == clean.bytes.len() {
+        acc.count("transient_write_error_survived_document_complete");
+    } else {
+        acc.count("transient_write_error_left_a_prefix");
+    }
+}
+
 /// The same invariant at the command line: `xt -t toml` over 1-3 inputs
 /// (files and stdin). Everything on stdout must be nothing or exactly one valid
 /// TOML document; a second input is refused with status 1.
@@ -396,14 +426,17 @@ pub fn run(ctx: &Ctx) -> i32 {
         acc.sample_every(2999, || json!({"calls": h.calls.iter().zip(&h.docs).map(|(c, d)| json!({"from": fmts::from_name(c.from), "mode": c.mode.describe(), "kinds": d.iter().map(|x| x.kind).collect::<Vec<_>>(), "input_preview": preview(&c.input, 100)})).collect::<Vec<_>>()}));
         let short = if i % 3 == 0 { Some(seed ^ i as u64) } else { None };
         judge(&h.calls, &h.docs, short, acc);
+        if i % 4 == 1 {
+            judge_transient(&h.calls, seed ^ (i as u64).wrapping_mul(0x9e37_79b9), acc);
+        }
     });
     let mut acc = acc;
     let n_cli = ctx.size(400, 8000);
     let cli = crate::par::run(n_cli, 4, |i, acc| cli_case(seed, i, acc));
     acc.merge(cli);
-    let rule = format!("{} histories of 1-3 translate calls on one Translator(to=TOML), 0-3 documents per call, documents: representable tables, every non-table root type, a null / oversized integer / non-string key / binary planted at a random path of a generated tree, keys from the hostile string pools (all quoting styles), arrays of tables; sources JSON/MessagePack/YAML/TOML, slice and reader, explicit and detected, every third history through a short-write writer (1-7 bytes per call); plus {} command-line invocations `xt -t toml` over 1-3 inputs (files and stdin) judged by the CLI reference model and the TOML reader; distinct non-trivial = distinct input sequences", n, n_cli);
+    let rule = format!("{} histories of 1-3 translate calls on one Translator(to=TOML), 0-3 documents per call, documents: representable tables, every non-table root type, a null / oversized integer / non-string key / binary planted at a random path of a generated tree, keys from the hostile string pools (all quoting styles), arrays of tables; sources JSON/MessagePack/YAML/TOML, slice and reader, explicit and detected, every third history through a short-write writer (1-7 bytes per call), every fourth once more to a writer that fails ONE write call after k bytes with a transient error kind (WouldBlock, Interrupted, TimedOut, Other, WriteZero) and then accepts again; plus {} command-line invocations `xt -t toml` over 1-3 inputs (files and stdin) judged by the CLI reference model and the TOML reader; distinct non-trivial = distinct input sequences", n, n_cli);
     ev::finish(
-        Finish { ctx, level: "exploration", rule, assumptions: vec!["after a refused first document the fate of later documents is not fixed by the property (either outcome accepted, byte invariant still enforced)".into(), "non-string keys, binary and non-finite floats may be accepted or refused".into()], extra: serde_json::Map::new(), exhaustive: false, min_distinct: 1000, must_reach: vec![("cli_second_input_refused".into(), 20), ("TOML_SECOND_USE_REFUSED".into(), 100), ("TOML_NON_TABLE_ROOT_REFUSED".into(), 100), ("histories_one_document_written".into(), 100), ("doc_kind_planted_null".into(), 100), ("doc_kind_planted_oversized_int".into(), 100)] },
+        Finish { ctx, level: "exploration", rule, assumptions: vec!["after a refused first document the fate of later documents is not fixed by the property (either outcome accepted, byte invariant still enforced)".into(), "non-string keys, binary and non-finite floats may be accepted or refused".into()], extra: serde_json::Map::new(), exhaustive: false, min_distinct: 1000, must_reach: vec![("cli_second_input_refused".into(), 20), ("TOML_SECOND_USE_REFUSED".into(), 100), ("TOML_NON_TABLE_ROOT_REFUSED".into(), 100), ("histories_one_document_written".into(), 100), ("doc_kind_planted_null".into(), 100), ("doc_kind_planted_oversized_int".into(), 100), ("histories_with_a_transient_write_error".into(), 1000), ("transient_write_error_left_a_prefix".into(), 100)] },
         acc,
     )
 }
@@ -425,6 +458,25 @@ pub fn replay(v: &Value) -> i32 {
         println!("bad replay case");
         return 2;
     };
+    if c["transient_write_error"].is_string() {
+        let mut calls = vec![];
+        for x in arr {
+            let (Some(input), Some(from), Some(mode)) = (x["input_hex"].as_str().and_then(unhex), x["from"].as_str().and_then(fmts::parse_from), x["mode"].as_str().and_then(Mode::parse)) else {
+                println!("bad replay case");
+                return 2;
+            };
+            calls.push(Call { input, from, mode });
+        }
+        let mut acc = Acc::default();
+        judge_transient(&calls, c["seed"].as_u64().unwrap_or(0), &mut acc);
+        return if acc.vio_count > 0 {
+            println!("VIOLATION property=C08 replay=<this file> (reproduced): {}", acc.violations[0].observed);
+            1
+        } else {
+            println!("not reproduced");
+            0
+        };
+    }
     let mut calls = vec![];
     let mut docs: Vec<Vec<DocSpec>> = vec![];
     for x in arr {
